@@ -1355,6 +1355,14 @@ class Body:
                 return Expr("call", [f] + args, path="<indirect>", site=site, info=None)
             if "value" in c and not args:
                 return Expr("const", v=int(c["value"]), ty="usize", from_call=c["inst"])
+            nm_ = callee_name(c)
+            if len(args) >= 1 and nm_.startswith("std::result::Result::<T, E>::") and nm_.rsplit("::", 1)[-1] in ("expect", "unwrap") \
+                    and len(c.get("args") or []) == 2 and c["args"][0] in _INT_DEFAULTS and c["args"][1] in ("std::num::TryFromIntError", "std::convert::Infallible"):
+                src = args[0].strip()
+                if src.k == "call" and src.a and (src.x["path"].endswith(">::try_from") or src.x["path"].endswith("::try_into") or src.x["path"].endswith("TryFrom::try_from") or src.x["path"].endswith("TryInto::try_into")):
+                    # `T::try_from(x).expect(..)` / `.unwrap()` on integers: the cast `x as T`, with a panic where the cast
+                    # would have truncated
+                    return Expr("cast", [src.a[0]], ck="IntToInt", to=c["args"][0], frm=(src.x.get("info") or {}).get("args", ["?", "?"])[-1], transparent=False, site=site, checked=True)
             if not args and c.get("path") == "std::default::Default::default" and len(c.get("args") or []) == 1 and c["args"][0] in _INT_DEFAULTS:
                 # `<usize as Default>::default()` — what a derived `Default` puts in an integer field
                 return Expr("const", v=0, ty=c["args"][0], from_call=c.get("inst", ""))
